@@ -35,9 +35,34 @@ fn main() {
     let nthreads: usize = std::env::args().nth(1).and_then(|s| s.parse().ok()).unwrap_or(2);
     // a second model that differs only in climate zone and window set-back
     let model_b = MODEL_A.replace("\"D3\"", "\"A4\"").replace("\"setback\": 0.2", "\"setback\": 0.0");
+    // a third model with a broken link: its indicators carry a checker warning, the others none
+    let model_c = MODEL_A.replacen("\"cons\": \"f0000000-0000-4000-8000-000000003002\"", "\"cons\": \"f0000000-0000-4000-8000-0000000fffff\"", 1);
     let ref_a = indicators(MODEL_A);
     let ref_b = indicators(&model_b);
+    let ref_c = indicators(&model_c);
     assert_ne!(ref_a, ref_b, "the two models must differ");
+    assert!(ref_a["warnings"].as_array().map(|a| a.is_empty()).unwrap_or(false), "model A is closed");
+    assert!(ref_c["warnings"].as_array().map(|a| !a.is_empty()).unwrap_or(false), "model C has a broken link");
+    // phase 0b: the checker itself, concurrently on a closed and on a broken model
+    {
+        let closed = Model::from_json(MODEL_A).expect("loads");
+        let broken = Model::from_json(&model_c).expect("loads");
+        let want_closed = serde_json::to_value(bemodel::check(&closed)).unwrap();
+        let want_broken = serde_json::to_value(bemodel::check(&broken)).unwrap();
+        let mut hs = vec![];
+        for t in 0..nthreads {
+            let (m, want) = if t % 2 == 0 { (closed.clone(), want_closed.clone()) } else { (broken.clone(), want_broken.clone()) };
+            hs.push(std::thread::spawn(move || {
+                for i in 0..6 {
+                    let got = serde_json::to_value(bemodel::check(&m)).unwrap();
+                    assert_eq!(got, want, "thread {} call {}: check() differs from the single-threaded result", t, i);
+                }
+            }));
+        }
+        for h in hs {
+            h.join().expect("checker thread panicked");
+        }
+    }
     // phase 0: the cheap public table look-ups the indicators are built on, many times, from
     // threads that ask for different climate zones (a torn or stale shared result shows here
     // with far fewer instructions per attempt than a whole indicator computation)
@@ -62,7 +87,11 @@ fn main() {
     }
     let mut handles = vec![];
     for t in 0..nthreads {
-        let (json, want) = if t % 2 == 0 { (MODEL_A.to_string(), ref_a.clone()) } else { (model_b.clone(), ref_b.clone()) };
+        let (json, want) = match t % 3 {
+            0 => (MODEL_A.to_string(), ref_a.clone()),
+            1 => (model_c.clone(), ref_c.clone()),
+            _ => (model_b.clone(), ref_b.clone()),
+        };
         handles.push(std::thread::spawn(move || {
             let got = indicators(&json);
             assert_eq!(got, want, "thread {}: concurrent result differs from the single-threaded one", t);
